@@ -58,13 +58,14 @@ def main():
             {"name": "z3-direct", "path": "models/", "serves_properties": sorted(p for p, c in claims.items() if c.get("engine") == "z3-direct"),
              "kind_free_text": "direct z3 queries (regex->Re translation of the repo's own patterns, Datalog/fixedpoint over the live "
                                "dialect grammar graphs) regenerated from /repo on every run"},
-            {"name": "crosshair", "path": "crosshair/", "serves_properties": sorted(p for p, c in claims.items() if "crosshair" in c.get("technique", "")),
-             "kind_free_text": "CrossHair 0.0.110 on small string kernels"},
         ],
         "checks": checks,
         "not_applicable": [{"property_id": p, "reason": r} for p, r in sorted(na.items()) if p not in claims],
         "notes": "All checks: exit 0 held / 1 VIOLATION (after replay on the real code) / 2 engine could not encode or vacuous "
-                 "harness / 3 counterexample did not replay (harness bug). Known findings: known_findings.json.",
+                 "harness / 3 counterexample did not replay (harness bug). Known findings: known_findings.json. /repo carries 16 "
+                 "unguarded `fix:` commits on top of the pinned snapshot (listed as status=fixed in known_findings.json); no hook or "
+                 "instrumentation commit was needed (source_commits is empty); the pinned suite passes with them (10880 passed, the "
+                 "10 baseline always-fail tests unchanged).",
     }
     json.dump(m, open(os.path.join(ROOT, "MANIFEST.json"), "w"), indent=1)
     print("checks:", len(checks), "not_applicable:", len(m["not_applicable"]))
